@@ -112,6 +112,17 @@ def run(ctx, res):
             else:
                 res.holds("C10.R1", fn, site + ":children")
         kinds[site] = (placed, childs if recursed else None)
+        # R3: an opening tag is always descended into (otherwise it can never pair with its closing tag)
+        parsed_key = [k for k in d if k.startswith("is_some(parse(") or k.startswith("is_some(element_parser::parse(")]
+        is_elem = any(d[k] is True for k in parsed_key)
+        returned_as_closer = o["exit"] == "break" and isinstance(o["value"], A.Tuple) and len(o["value"].items) == 2 and isinstance(o["value"].items[1], A.Variant) and o["value"].items[1].name == "Some"
+        if is_elem and not returned_as_closer:
+            if recursed:
+                res.holds("C10.R3", fn, site + ":descent")
+            else:
+                res.add(Finding("C10.R3", fn, site + ":descent", "on this path a parsed tag is neither returned as the closer of an ancestor nor descended into: an opening tag that is "
+                                "not descended can never pair with its closing tag (well-formed elements stop being recognised)", loc=loc,
+                                detail={"decisions": {k: str(v) for k, v in d.items()}}))
         if len(res.samples) < 8:
             res.samples.append({"path": label or "text-token", "token_placed": placed, "children_consumed": childs if recursed else None, "exit": o["exit"]})
     res.extra["paths"] = n_paths
@@ -126,23 +137,31 @@ def run(ctx, res):
         res.holds("C10.R1", fshort(pb), "seed", "tree(tokens, 0, &mut parts, []) and parts returned")
     else:
         res.add(Finding("C10.R1", fshort(pb), "seed", "parse() does not start the traversal at token 0 / does not return the filled list", loc=T.loc(pb["tree"])))
+    # R4: ancestors are matched by their full name against the closer's name without its prefix
+    preds = {k for o in outs for k in o["decisions"] if k.startswith("any(parent_elements.iter()")}
+    want = "any(parent_elements.iter(), {eq($e.name, parse(tokens.get(cursor).some).some.name.trim_start_matches('/'))})"
+    if preds == {want}:
+        res.holds("C10.R4", fn, "ancestor-lookup", "any(|p| p.name == closer.name without its '/')")
+    else:
+        res.add(Finding("C10.R4", fn, "ancestor-lookup", "the ancestor lookup is %s; a closing tag must be matched against the *full* names of the open ancestors (a stray closing tag "
+                        "kept on the stack must not be closable by another stray closing tag)" % sorted(preds), loc=loc))
     # R2 name discipline inside the parser
     cnt = 0
-    for (b_, n, cls, detail) in c06.name_uses(P):
-        if fshort(b_) != "parser::tree":
+    for (b_, n, cls, detail, origin) in c06.name_uses(P):
+        if not fshort(b_).startswith("parser::"):
             continue
         cnt += 1
         site = "%s:%s" % (n.get("name") or n["res"]["name"], detail)
         if cls == "banned":
             import re
             m = re.search(r"\.(\w+)\((.*)\)$", detail)
-            if m and m.group(1) in ("starts_with", "trim_start_matches") and m.group(2) == repr("/"):
-                res.holds("C10.R2", "parser::tree", site, "reviewed closing-prefix operation")
+            if m and m.group(1) in ("starts_with", "trim_start_matches", "strip_prefix") and m.group(2) == repr("/"):
+                res.holds("C10.R2", fshort(b_), site, "reviewed closing-prefix operation")
             else:
-                res.add(Finding("C10.R2", "parser::tree", site, "tag name used through `%s` (not an exact comparison)" % detail, loc=T.loc(n)))
+                res.add(Finding("C10.R2", fshort(b_), site, "tag name used through `%s` (not an exact comparison)" % detail, loc=T.loc(n)))
         else:
-            res.holds("C10.R2", "parser::tree", site)
-    res.floor("C10.R2", "tag-name uses in parser::tree", cnt, 5)
+            res.holds("C10.R2", fshort(b_), site)
+    res.floor("C10.R2", "tag-name uses in the parser module", cnt, 5)
 
 
 def _short(k):
